@@ -49,7 +49,7 @@ def one_input(data):
     anchor = fdp.ConsumeIntInRange(0, 4)
     if op <= 6:
         case = {"op": "pair", "a": decode_array(fdp, anchor), "b": decode_array(fdp, anchor if op % 2 else anchor + 1),
-                "layout": ["plain", "strided", "offset", "readonly"][fdp.ConsumeIntInRange(0, 3)]}
+                "layout": ["plain", "strided", "offset", "readonly", "reversed"][fdp.ConsumeIntInRange(0, 4)]}
     elif op == 7:
         case = {"op": "wrap", "a": decode_array(fdp, anchor) if fdp.ConsumeBool() else None,
                 "b": decode_array(fdp, anchor) if fdp.ConsumeBool() else None,
